@@ -69,6 +69,7 @@ PLAN_KEYS = ["f", "r", "b", "L", "K", "navg", "D", "O", "nf"]
 KERNELS = ["_stats_win_only_auto", "_stats_win_only_csd", "_stats_detrend0_auto", "_stats_detrend0_csd", "_stats_poly_auto", "_stats_poly_csd"]
 NO_DRIVER_ATTR = {"cf_rad_unwrapped", "cf_deg_unwrapped"}     # cross-bin attributes: not in the per-bin generated table
 CHECKS = ("threads", "kernel", "history", "attrs", "isolation")
+LIBERR = (Exception, SystemExit)      # ltf_plan calls sys.exit(-1) when it produces no frequency: an error outcome like any other here
 
 
 # ------------------------------------------------------------------------------------------------ bit-level signatures
@@ -183,7 +184,6 @@ def gen_case(rng: np.random.Generator, edge: bool = False, nmax: int = 3000) -> 
         o["olap"] = "default"
     if rng.random() < 0.25:
         o["force_target_nf"] = True
-        o["Jdes"] = int(rng.integers(3, 16))
     if rng.random() < 0.3 and not edge:
         o["band"] = [fs * float(rng.uniform(0.004, 0.08)), fs * float(rng.uniform(0.15, 0.5))]
     if rng.random() < 0.25:
@@ -192,18 +192,26 @@ def gen_case(rng: np.random.Generator, edge: bool = False, nmax: int = 3000) -> 
     p = {"dseed": int(rng.integers(0, 2 ** 31 - 1)), "N": N, "fs": fs, "cross": cross, "kind": str(rng.choice(kinds)),
          "kind2": str(rng.choice(kinds)), "layout": str(rng.choice(["2xN", "Nx2"])), "opts": o}
     if p["opts"].get("force_target_nf"):
-        if N > 700:                                           # the Jdes search calls the scheduler ~20 times per fresh analyzer
-            p["N"] = int(rng.integers(150, 700))
-        if rng.random() < 0.8:                                # mostly a bin count some Jdes really produces (the search wants an exact match)
-            q = copy.deepcopy(p)
-            q["opts"].pop("force_target_nf")
-            q["opts"].pop("band", None)
-            with quiet():
-                try:
-                    p["opts"]["Jdes"] = int(len(mk_analyzer(q).plan()["f"]))
-                except Exception:
-                    pass
+        p["N"] = int(rng.integers(150, 500))                 # the Jdes search calls the scheduler ~20 times per fresh analyzer
+        if p["opts"]["scheduler"] == "vectorized_ltf" and rng.random() < 0.85:     # ... and its lookup grid has 10*Jdes points (seconds per plan)
+            p["opts"]["scheduler"] = str(rng.choice(["ltf", "lpsd", "new_ltf"]))
+        if rng.random() < 0.9:
+            force_target(p, int(rng.integers(100, 300)))
     return p
+
+
+def force_target(p: Dict[str, Any], J: int) -> None:
+    """force_target_nf with a bin count that some Jdes in the search range [100, 1e6] really produces (the search wants an exact match)"""
+    q = copy.deepcopy(p)
+    q["opts"].pop("force_target_nf", None)
+    q["opts"].pop("band", None)
+    q["opts"]["Jdes"] = int(J)
+    p["opts"]["force_target_nf"] = True
+    with quiet():
+        try:
+            p["opts"]["Jdes"] = int(len(mk_analyzer(q).plan()["f"]))
+        except LIBERR:
+            p["opts"]["Jdes"] = int(J)
 
 
 def gen_ops(rng: np.random.Generator, p: Dict[str, Any], n: int) -> List[List[Any]]:
@@ -237,8 +245,18 @@ def run_op(an, op: List[Any]):
                 kw = {"L": int(op[3])} if op[2] == "L" else {"fres": float(op[3])}
                 return ("ok", "result", an.compute_single_bin(float(op[1]), **kw))
             raise ValueError(f"unknown op {op!r}")
-        except Exception as ex:
+        except LIBERR as ex:
             return ("err", type(ex).__name__, str(ex)[:160])
+
+
+def fresh_op(p: Dict[str, Any], op: List[Any]):
+    """the op on a newly constructed analyzer (constructor failures are an error outcome too)"""
+    with quiet():
+        try:
+            an = mk_analyzer(p)
+        except LIBERR as ex:
+            return ("err", type(ex).__name__, "constructor: " + str(ex)[:140])
+    return run_op(an, op)
 
 
 def out_vals(o) -> Dict[str, Any]:
@@ -299,7 +317,7 @@ def check_threads(p: Dict[str, Any]) -> Tuple[List[Dict[str, Any]], Dict[str, An
     bad: List[Dict[str, Any]] = []
 
     def once():
-        return run_op(mk_analyzer(p), ["compute"])
+        return fresh_op(p, ["compute"])
     base = with_schedule(1, 0, once)
     info = {"ok": base[0] == "ok", "settings": 0, "maxK": 0}
     if base[0] != "ok":
@@ -367,12 +385,12 @@ def check_history(p: Dict[str, Any]) -> Tuple[List[Dict[str, Any]], Dict[str, An
     with quiet():
         try:
             an = mk_analyzer(p)
-        except Exception as ex:
+        except LIBERR as ex:
             info["ctor"] = False
             try:
                 mk_analyzer(p)
                 bad.append({"step": -1, "op": ["ctor"], "field": "raises", "detail": f"constructor raised {ex!r} once and not the second time"})
-            except Exception:
+            except LIBERR:
                 pass
             return bad, info
     kept = []
@@ -380,7 +398,11 @@ def check_history(p: Dict[str, Any]) -> Tuple[List[Dict[str, Any]], Dict[str, An
     for k, op in enumerate(p["ops"]):
         u = run_op(an, op)
         with quiet():
-            fr = mk_analyzer(p)
+            try:
+                fr = mk_analyzer(p)
+            except LIBERR as ex:
+                bad.append({"step": k, "op": op, "field": "raises", "detail": f"constructing a second analyzer from the same arguments raised {ex!r}"})
+                break
         f = run_op(fr, op)
         if u[0] != f[0]:
             bad.append({"step": k, "op": op, "field": "raises",
@@ -429,7 +451,7 @@ def get_attr(res, name):
     with quiet():
         try:
             return ("ok", getattr(res, name))
-        except Exception as ex:
+        except LIBERR as ex:
             return ("err", type(ex).__name__)
 
 
@@ -443,7 +465,10 @@ def make_result(p: Dict[str, Any]):
         rng = np.random.default_rng([int(p["dseed"]), 142])
         bins = [_an.gen_bin(rng, bool(p["cross"]), edge=(i % 3 == 2)) for i in range(int(p["nbins"]))]
         return _an.fake_result(bins, bool(p["cross"]), float(p["fs"])), None
-    an = mk_analyzer(p)
+    try:
+        an = mk_analyzer(p)
+    except LIBERR:
+        return None, None
     r = run_op(an, ["compute"] if src == "compute" else p["single_op"])
     if r[0] != "ok":
         return None, an
@@ -469,7 +494,7 @@ def check_attrs(p: Dict[str, Any]) -> Tuple[List[Dict[str, Any]], Dict[str, Any]
         with quiet():
             try:
                 plan0 = {k: sig(an.plan().get(k)) for k in PLAN_KEYS}
-            except Exception:
+            except LIBERR:
                 plan0 = None
     raw0 = None if (an is None or plan0 is None or p["source"] != "compute") else out_sigs(("ok", "result", clone(res, pristine)))
     names = attr_names(res)
@@ -481,10 +506,12 @@ def check_attrs(p: Dict[str, Any]) -> Tuple[List[Dict[str, Any]], Dict[str, Any]
     A = res
     first: Dict[str, Any] = {}
     objs: Dict[str, Any] = {}
+    vals0: Dict[str, Any] = {}                                 # copies of the first values (for messages only)
     for n in perm1:
         g = get_attr(A, n)
         objs[n] = g
         first[n] = gsig(g)
+        vals0[n] = copy.deepcopy(g[1]) if g[0] == "ok" else g
         if g[0] == "ok" and isinstance(g[1], np.ndarray):
             info["arrays"] += 1
 
@@ -492,7 +519,7 @@ def check_attrs(p: Dict[str, Any]) -> Tuple[List[Dict[str, Any]], Dict[str, Any]
         for n in order:
             g = get_attr(other, n)
             if gsig(g) != first[n]:
-                bad.append({"name": n, "how": how, "detail": diff(objs[n][1] if objs[n][0] == "ok" else objs[n], g[1] if g[0] == "ok" else g)})
+                bad.append({"name": n, "how": how, "detail": diff(vals0[n], g[1] if g[0] == "ok" else g)})
     compare(clone(res, pristine), list(reversed(perm1)), "reversed access order")
     compare(clone(res, pristine), perm2, "another access order")
     k_alone = int(p.get("alone", 8))
@@ -505,18 +532,19 @@ def check_attrs(p: Dict[str, Any]) -> Tuple[List[Dict[str, Any]], Dict[str, Any]
             if not D.iscsd:
                 D.get_rms()
             D.get_measurement(float(np.mean(D.f)), "Gxx")
-        except Exception:
+        except LIBERR:
             pass                                              # export failures belong to C20
     compare(D, perm2, "after to_dataframe()/get_rms()/get_measurement()")
     for n in perm3:                                           # cached attribute returned unchanged
         g = get_attr(A, n)
         if gsig(g) != first[n]:
-            bad.append({"name": n, "how": "second access", "detail": diff(objs[n][1] if objs[n][0] == "ok" else objs[n], g[1] if g[0] == "ok" else g)})
+            bad.append({"name": n, "how": "second access", "detail": diff(vals0[n], g[1] if g[0] == "ok" else g)})
         if g[0] == "ok" and isinstance(g[1], np.ndarray):
             info["same_object" if g[1] is objs[n][1] else "new_object"] += 1
     for n in names:                                           # what was handed out first is still what it was
         if gsig(objs[n]) != first[n]:
-            bad.append({"name": n, "how": "value returned at first access was modified in place by a later access", "detail": "", "mutated": True})
+            bad.append({"name": n, "how": "value returned at first access was modified in place by a later access",
+                        "detail": diff(vals0[n], objs[n][1] if objs[n][0] == "ok" else objs[n]), "mutated": True})
     for k in base0:
         if k in A._data and sig(A._data[k]) != base0[k]:
             bad.append({"name": k, "how": "base array modified in place by attribute access", "detail": diff(pristine[k], A._data[k]), "mutated": True})
@@ -544,9 +572,9 @@ def check_isolation(p: Dict[str, Any], child: Optional[List[Dict[str, str]]] = N
     """A, B, A in this process (+ reference evaluation of A's second result and of B); optionally digests of [B, A] from a clean process"""
     bad: List[Dict[str, Any]] = []
     info: Dict[str, Any] = {"ok": False, "ref_fields": 0}
-    a1 = run_op(mk_analyzer(p["A"]), iso_ops(p))
-    b = run_op(mk_analyzer(p["B"]), iso_ops(p))
-    a2 = run_op(mk_analyzer(p["A"]), iso_ops(p))
+    a1 = fresh_op(p["A"], iso_ops(p))
+    b = fresh_op(p["B"], iso_ops(p))
+    a2 = fresh_op(p["A"], iso_ops(p))
     if a1[0] != a2[0] or (a1[0] == "err" and a1[1] != a2[1]):
         bad.append({"field": "raises", "detail": f"A first {a1[:2]}, A after B {a2[:2]}"})
         return bad, info
@@ -595,8 +623,8 @@ def _worker():
     out = []
     for j in req["jobs"]:
         try:
-            out.append(digest_out(run_op(mk_analyzer(j["case"]), j["op"])))
-        except Exception as ex:
+            out.append(digest_out(fresh_op(j["case"], j["op"])))
+        except LIBERR as ex:
             out.append({"raises": type(ex).__name__})
     sys.stdout.write(json.dumps(out) + "\n")
     sys.stdout.flush()
@@ -781,11 +809,19 @@ def corpus() -> List[Dict[str, Any]]:
            sweep_case(2, False, 1402, threads=[1, 2, 3, 7, 16], chunks=[0, 1, 5])]
     base = {"dseed": 1410, "N": 1200, "fs": 2.0, "cross": True, "kind": "red", "kind2": "noise", "layout": "Nx2"}
     pattern = [["compute"], ["single", 0.25, "L", 200], ["compute"], ["plan"], ["single", 0.1, "fres", 0.01], ["plan"], ["compute"], ["single", 0.25, "L", 200]]
-    for k, extra in enumerate([{}, {"force_target_nf": True, "Jdes": 9}, {"band": [0.02, 0.6]}, {"force_target_nf": True, "Jdes": 7, "band": [0.01, 0.9], "scheduler": "ltf"},
-                               {"scheduler": "new_ltf", "order": 2}, {"scheduler": "lpsd", "order": -1, "backend": "numpy"}]):
+    for k, extra in enumerate([{}, {"force": 120}, {"band": [0.02, 0.6]}, {"force": 150, "band": [0.01, 0.9], "scheduler": "ltf"},
+                               {"scheduler": "new_ltf", "order": 2}, {"scheduler": "lpsd", "order": -1, "backend": "numpy"},
+                               {"force": 200, "scheduler": "new_ltf", "order": 0}]):
         o = {"order": 1, "olap": 0.6, "Jdes": 12, "Kdes": 8, "bmin": 1.0, "Lmin": 1, "scheduler": "vectorized_ltf", "win": "kaiser", "psll": 120.0}
+        extra = dict(extra)
+        J = extra.pop("force", None)
         o.update(extra)
-        out.append(dict(base, check="history", opts=o, ops=pattern, dseed=1410 + k, cross=(k % 2 == 0), N=1200 if not o.get("force_target_nf") else 500))
+        c = dict(base, check="history", opts=o, ops=pattern, dseed=1410 + k, cross=(k % 2 == 0), N=1200 if J is None else 400)
+        if J is not None:
+            force_target(c, J)
+            if o["scheduler"] == "vectorized_ltf":
+                c["ops"] = [["single", 0.25, "L", 200], ["plan"], ["single", 0.1, "fres", 0.01], ["compute"]]
+        out.append(c)
     d = os.path.join(C.CORPUS_DIR, PROP)
     if os.path.isdir(d):
         for fn in sorted(os.listdir(d)):
@@ -832,7 +868,8 @@ def correspondence(ctx) -> C.Part:
             P.notes.append("time budget reached (history)")
             break
         c = gen_case(rng, edge=(i % 6 == 5))
-        c.update({"check": "history", "ops": gen_ops(rng, c, int(rng.integers(3, 13)))})
+        slow = bool(c["opts"].get("force_target_nf")) and c["opts"]["scheduler"] == "vectorized_ltf"
+        c.update({"check": "history", "ops": gen_ops(rng, c, int(rng.integers(3, 5 if slow else 13)))})
         run_payload(P, c, as_corr=True)
         if i < 2:
             P.sample({"op": "history", "N": c["N"], "cross": c["cross"], "opts": c["opts"], "ops": c["ops"]})
@@ -873,15 +910,22 @@ def oracle(ctx, intensive: bool = False, hints: List[Dict[str, Any]] = ()) -> C.
 
     # clean-interpreter runs are started first and collected at the end (they cost no wall time that way)
     n_iso = ctx.scale(6, 36) * mult
-    vorder = [ISO_VARIANTS[k] for k in rng.permutation(len(ISO_VARIANTS))]      # drawn, so that every seed covers different variants first
+    rest = [v for v in ISO_VARIANTS if v not in ("psll", "win")]
+    vorder = ["psll", "win"] + [rest[k] for k in rng.permutation(len(rest))]    # the rest is drawn: every seed covers different variants first
     iso = [gen_isolation(rng, vorder[i % len(vorder)], single=(i % 5 == 4)) for i in range(n_iso)]
-    n_child = min(len(iso), ctx.scale(3, 10) * mult)
+    # clean interpreters: child c computes [B_i, A_i] for its share of the cases (each case has its own N / record, so B_i meets no
+    # state that an analysis with other options could have left for it)
+    n_child = min(len(iso), ctx.scale(3, 8))
     children = []
     try:
-        for i in range(n_child):
-            children.append(spawn_child([{"case": iso[i]["B"], "op": iso_ops(iso[i])}, {"case": iso[i]["A"], "op": iso_ops(iso[i])}]))
+        for c in range(n_child):
+            jobs = []
+            for i in range(c, len(iso), n_child):
+                jobs += [{"case": iso[i]["B"], "op": iso_ops(iso[i])}, {"case": iso[i]["A"], "op": iso_ops(iso[i])}]
+            children.append(spawn_child(jobs))
     except Exception as ex:
         P.notes.append(f"clean-process comparison unavailable: {ex!r}"[:160])
+    child_out: Dict[int, Any] = {}
 
     # 0. inputs on which the correspondence disagreed, then the fixed corpus
     first = [h["oracle_payload"] for h in hints if isinstance(h, dict) and isinstance(h.get("oracle_payload"), dict) and h["oracle_payload"].get("check") in CHECKS]
@@ -920,21 +964,21 @@ def oracle(ctx, intensive: bool = False, hints: List[Dict[str, Any]] = ()) -> C.
                  "threads": thread_counts(), "chunks": [0, 1, 5, 64], "repeat_last": 1}
             run_payload(P, p)
 
-    # 2./3. repetition and interleaving on one analyzer
-    for i in range(ctx.scale(22, 400) * mult):
+    # 5. analyses in one process do not influence each other; [B, A] in a clean interpreter
+    for i, p in enumerate(iso):
         if out_of_time():
             break
-        c = gen_case(rng, edge=(i % 6 == 5))
-        n = int(rng.integers(3, 13))
-        ops = gen_ops(rng, c, n)
-        if i % 4 == 0:                       # the literal patterns of the property text: repeat, plan unchanged by compute, interleave
-            s = [o for o in ops if o[0] == "single"][:2] or [["single", 0.0, "L", max(1, c["N"] // 2)]]
-            ops = [["plan"], ["compute"], ["compute"], ["plan"], s[0], ["compute"], ["plan"], s[-1], s[0], ["compute"]]
-        c.update({"check": "history", "ops": ops})
-        run_payload(P, c)
-        if i < 2:
-            P.sample({"op": "history", "N": c["N"], "cross": c["cross"], "opts": c["opts"], "ops": [o[0] for o in ops]})
-
+        child = None
+        if children:
+            c = i % n_child
+            if c not in child_out:
+                child_out[c] = reap_child(children[c], min(90.0, max(5.0, t_end - time.time())))
+                if child_out[c] is None:
+                    P.notes.append("a clean-process run did not answer in time (not counted)")
+            if child_out[c] is not None:
+                k = 2 * (i // n_child)
+                child = child_out[c][k:k + 2] if len(child_out[c]) >= k + 2 else None
+        run_payload(P, p, child=child)
     # 4. attribute access order
     for i in range(ctx.scale(12, 160) * mult):
         if out_of_time():
@@ -944,16 +988,22 @@ def oracle(ctx, intensive: bool = False, hints: List[Dict[str, Any]] = ()) -> C.
         if i < 1:
             P.sample({"op": "attrs", "source": p["source"], "cross": p["cross"], "pseed": p["pseed"]})
 
-    # 5. analyses in one process do not influence each other; [B, A] in a clean interpreter
-    for i, p in enumerate(iso):
+    # 2./3. repetition and interleaving on one analyzer
+    for i in range(ctx.scale(22, 400) * mult):
         if out_of_time():
             break
-        child = None
-        if i < len(children):
-            child = reap_child(children[i], min(60.0, max(5.0, ctx.time_left() - reserve)))
-            if child is None:
-                P.notes.append("a clean-process run did not answer in time (not counted)")
-        run_payload(P, p, child=child)
+        c = gen_case(rng, edge=(i % 6 == 5))
+        slow = bool(c["opts"].get("force_target_nf")) and c["opts"]["scheduler"] == "vectorized_ltf"
+        n = int(rng.integers(3, 5 if slow else 13))
+        ops = gen_ops(rng, c, n)
+        if i % 4 == 0 and not slow:          # the literal patterns of the property text: repeat, plan unchanged by compute, interleave
+            s = [o for o in ops if o[0] == "single"][:2] or [["single", 0.0, "L", max(1, c["N"] // 2)]]
+            ops = [["plan"], ["compute"], ["compute"], ["plan"], s[0], ["compute"], ["plan"], s[-1], s[0], ["compute"]]
+        c.update({"check": "history", "ops": ops})
+        run_payload(P, c)
+        if i < 2:
+            P.sample({"op": "history", "N": c["N"], "cross": c["cross"], "opts": c["opts"], "ops": [o[0] for o in ops]})
+
     for ch in children:
         try:
             if ch.poll() is None:
